@@ -176,6 +176,7 @@ CHECKS = {
     "C20": dict(
         pkg="./c20", level="exploration",
         runs=[
+            dict(name="paralleladds", run="^TestPropParallelAdds$", checks=(60, 600), shards=(2, 8), shrinktime="5s"),
             dict(name="fold", run="^TestPropFold$", checks=(500, 5000), shards=(4, 16), shrinktime="20s"),
             dict(name="concurrent", run="^TestPropConcurrentFold$", checks=(60, 600), shards=(4, 16), shrinktime="5s"),
             dict(name="qcoll", run="^TestPropQueryCollection$", checks=(150, 1500), shards=(4, 16), shrinktime="10s"),
